@@ -12,7 +12,9 @@ Tie (checked on every run), model extracted to OCaml with the float NumOps:
       every measure value at every returned state is compared;
   (3) the right-hand sides of the theorems (extreme of the samples, interpolant of the history, formula value) are evaluated
       independently in Python on the integrator runs (this is also the failing-input search).
-Known findings (each replayed on the implementation on every run): see FINDINGS below."""
+Known findings (each replayed on the implementation on every run): see FINDINGS below.
+The model has one flag (fx): Extreme::setValue as in the source / with patches/C23_extreme_setvalue.diff; decide_fx picks the
+variant the tree under test implements, the theorems about runs are proved for both."""
 import os, sys, math, json
 from vlib import *
 
@@ -625,6 +627,10 @@ def replay(ctx, path):
     drv, exes = tools
     decide_fx(ctx, exes['drive'])
     lines = r.get('case') or r.get('first_disagreement_case')
+    fd = ctx.bdir('first_disagreement.case')
+    if not lines and not r.get('run') and os.path.exists(fd):
+        print('  (the record names no case; replaying the last shrunk disagreement %s)' % fd)
+        lines = [l.strip() for l in open(fd) if l.strip()]
     if lines:
         rr = run_both(ctx, drv, exes['drive'], lines, 'replay')
         if rr:
